@@ -37,7 +37,7 @@ def plan(tier, seed):
         "min_executed": 100,
         "shrink_s": 40,
         "real_vs_stub": {
-            "real": "tf_pwa.generator (multi_sampling, single_sampling2, GenTest, LinearInterp, interp_sample_f, BWGenerator, InterpND), tf_pwa.data helpers, ConfigLoader.generate_toy/_p with the real amplitude, AdaptiveBound, Hist1D",
+            "real": "tf_pwa.generator (multi_sampling, single_sampling2, GenTest, LinearInterp, interp_sample_f, BWGenerator, InterpND), tf_pwa.data helpers, ConfigLoader.generate_toy/_p with the real amplitude (also on generators built with nodes=), applications.gen_data (MC / background / toy files on the scratch directory), AdaptiveBound, Hist1D",
             "simulated": "all uniform draws (tf.random.uniform, np.random.random) through the rng seam: seeded, pinned per stage, or scripted grids",
             "stub": "phsp/amp callables handed to multi_sampling in the core sub-check (serial-numbered proposals with scripted weights); f for interp_sample_f",
         },
@@ -54,7 +54,7 @@ def plan(tier, seed):
 
 def generate(job):
     rs = Stream(job["seed"], "C20")
-    kind = rs.weighted([("ms", 10), ("interp_ar", 2), ("inv", 3), ("toy", 1), ("bins", 2), ("hist", 1)])
+    kind = rs.weighted([("ms", 10), ("interp_ar", 2), ("inv", 3), ("toy", 1), ("bins", 2), ("hist", 1), ("gen_data", 0.7)])
     spec = {"kind": kind, "rng_seed": rs.randrange(1 << 30)}
     if kind == "ms":
         spec["mode"] = rs.weighted([("iid", 4), ("accept", 3), ("thin", 3)])
@@ -97,6 +97,23 @@ def generate(job):
         spec["cseed"] = rs.randrange(1 << 30)
         spec["calls"] = rs.choice([1, 2, 2, 3])
         spec["interrupt"] = rs.choice([0, 0, 500, 5000, 30000])
+        if rs.chance(0.4):
+            # proposals from a generator built with the nodes= keyword (importance-sampling workflow)
+            pool = ["B", "C", "D"]
+            spec["nodes"] = [[pool.pop(rs.randrange(len(pool))) for _ in range(rs.randint(1, 2))]]
+    elif kind == "gen_data":
+        spec["cseed"] = rs.randrange(1 << 30)
+        spec["n_mc"] = rs.choice([8, 30, 120])
+        spec["n_bgfile"] = rs.choice([5, 20])
+        spec["Ndata"] = rs.choice([1, 3, 10, 40])
+        spec["Nbg"] = rs.choice([0, 0, 3, 7])
+        spec["wbg"] = rs.choice([0.0, 0.5, 1.0]) if spec["Nbg"] else 0
+        spec["Ndata"] = max(spec["Ndata"], int(round(spec["wbg"] * spec["Nbg"])) + 1)  # at least one signal event
+        spec["poisson"] = rs.chance(0.2)
+        if spec["poisson"]:
+            spec["Ndata"] = 40  # a Poisson count of zero signal events is not a toy (gen_data has nothing to concatenate)
+        spec["particles"] = rs.choice([None, None, "sorted", "reversed"])
+        spec["genfile"] = rs.chance(0.7)
     elif kind == "bins":
         spec["n"] = rs.choice([64, 100, 257, 1000, 4096])
         spec["dim"] = rs.choice([1, 2, 2, 3])
@@ -465,12 +482,19 @@ def run_toy(spec, log):
                     sys.settrace(None)
             except InjectedFault:
                 log.count("fault.toy_generation_interrupted")
+        kw = {}
+        if spec.get("nodes"):
+            if spec["which"] == "generate_toy":
+                kw["gen"] = config.get_phsp_generator(nodes=[list(n) for n in spec["nodes"]]).generate
+            else:
+                kw["gen_p"] = config.get_phsp_p_generator(nodes=[list(n) for n in spec["nodes"]]).generate
+            log.count("probe.toy_from_generator_with_nodes")
         with rng_seam(spec["rng_seed"] + call):
             if spec["which"] == "generate_toy":
-                d = config.generate_toy(N, max_N=spec["max_N"])
+                d = config.generate_toy(N, max_N=spec["max_N"], **kw)
                 ps = {str(k): np.array(v["p"]) for k, v in d["particle"].items() if str(k) in fin}
             else:
-                d = config.generate_toy_p(N, max_N=spec["max_N"])
+                d = config.generate_toy_p(N, max_N=spec["max_N"], **kw)
                 ps = {str(k): np.array(v) for k, v in d.items()}
         log.ev("toy", call=call, shapes={k: list(v.shape) for k, v in ps.items()})
         if sorted(ps) != sorted(fin) or any(p.shape != (N, 4) for p in ps.values()):
@@ -487,6 +511,115 @@ def run_toy(spec, log):
             return
     if spec["calls"] > 1:
         log.count("probe.consecutive_toy_calls")
+
+
+def run_gen_data(spec, log):
+    """applications.gen_data: toy data picked from an MC file by acceptance-rejection (+ background rows).
+    Simulated: every draw (acceptance thresholds, candidate indices, background indices, Poisson counts, the
+    final shuffle) comes from the seam and is recorded; the expected sample is recomputed from the recorded
+    draws with a separately evaluated density."""
+    import numpy as np
+
+    from sim import cards
+    from sim.env import Scratch
+    from sim.seams import rng_seam
+    from tf_pwa.applications import gen_data
+
+    rs = Stream(spec["cseed"], "gd")
+    card = cards.make_card(rs, "S3", n_res=2)
+    config = cards.build(card)
+    amp = config.get_amplitude()
+    cards.randomize_params(amp, Stream(spec["cseed"], "p"), 1.0)
+    outs = sorted(amp.decay_group.outs)
+    particles = None
+    order = outs
+    if spec.get("particles") == "sorted":
+        particles = list(outs)
+    elif spec.get("particles") == "reversed":
+        particles = list(outs)[::-1]
+        order = particles
+
+    def table(n, seed):
+        with rng_seam(seed):
+            p = config.generate_phsp_p(n)
+        byname = {str(k): np.array(v) for k, v in p.items()}
+        return np.stack([byname[str(k)] for k in order], axis=1)  # (event, particle, 4)
+
+    mc = table(spec["n_mc"], spec["rng_seed"] + 1)
+    bg = table(spec["n_bgfile"], spec["rng_seed"] + 2)
+    with Scratch("c20gd") as d:
+        import os
+
+        mcfile, bgfile, genfile = os.path.join(d, "mc.dat"), os.path.join(d, "bg.dat"), os.path.join(d, "toy.dat")
+        np.savetxt(mcfile, mc.reshape(-1, 4))
+        np.savetxt(bgfile, bg.reshape(-1, 4))
+        # reference density of the MC rows (evaluated on the harness' own copy of the momenta)
+        ref = np.array(amp(config.data.cal_angle({k: mc[:, i] for i, k in enumerate(order)})))
+        draws = []
+
+        def script(role, shape, idx, u):
+            draws.append((role, tuple(shape), np.array(u)))
+            return None
+
+        with rng_seam(spec["rng_seed"], script=script):
+            data = gen_data(amp, spec["Ndata"], mcfile, Nbg=spec["Nbg"], wbg=spec["wbg"], Poisson_fluc=spec["poisson"], bgfile=bgfile, genfile=genfile if spec["genfile"] else None, particles=particles)
+        got = np.stack([np.array(data["particle"][k]["p"]) for k in order], axis=1)
+        filed = np.loadtxt(genfile).reshape(-1, len(order), 4) if spec["genfile"] else None
+    nbg = int(round(spec["wbg"] * spec["Nbg"]))
+    nmc = spec["Ndata"] - nbg
+    log.ev("gen_data", n=int(got.shape[0]), nmc=nmc, nbg=nbg, draws=len(draws))
+    key = "gen_data"
+    if not spec["poisson"] and got.shape[0] != spec["Ndata"]:
+        log.fail("exact-count", key + "|exact-count", "gen_data(Ndata=%d, Nbg=%d, wbg=%s) returned %d events" % (spec["Ndata"], spec["Nbg"], spec["wbg"], got.shape[0]))
+        return
+    # every returned event is one complete row of the MC or the background file (no particle of another event)
+    def rows(t):
+        return {t[i].tobytes(): i for i in range(t.shape[0])}
+
+    mcr, bgr = rows(mc), rows(bg)
+    src_idx = []
+    for i in range(got.shape[0]):
+        b = got[i].tobytes()
+        if b in mcr:
+            src_idx.append(("mc", mcr[b]))
+        elif b in bgr:
+            src_idx.append(("bg", bgr[b]))
+        else:
+            log.fail("physical", key + "|event-not-a-file-row", "returned event %d is not an event of the MC / background file (particles of different events mixed, or momenta altered)" % i)
+            return
+    if filed is not None and (filed.shape != got.shape or not np.array_equal(filed, got)):
+        log.fail("physical", key + "|genfile-differs", "the toy written to genfile differs from the returned toy")
+        return
+    if spec["poisson"]:
+        log.count("probe.gen_data_poisson")
+        return
+    n_from_bg = sum(1 for s, _ in src_idx if s == "bg")
+    if n_from_bg != nbg:
+        log.fail("exact-count", key + "|background-count", "%d of the %d events come from the background file, expected round(wbg*Nbg) = %d" % (n_from_bg, got.shape[0], nbg))
+        return
+    # the accepted MC events are exactly those the recorded draws select under the reference density
+    fl = [u for role, shape, u in draws if shape == (mc.shape[0],)]
+    exp = []
+    mx = float(np.max(ref))
+    for j in range(0, len(fl) - 1, 2):
+        thr = fl[j] * mx
+        cand = np.floor(fl[j + 1] * mc.shape[0]).astype(int)
+        exp += [int(c) for c, t in zip(cand, thr) if ref[c] > t]
+        if len(exp) >= nmc:
+            break
+    exp = sorted(exp[:nmc])
+    have = sorted(i for s, i in src_idx if s == "mc")
+    if len(exp) == nmc and have != exp:
+        # tolerate threshold ties at rounding level: compare only if no candidate sits within 1e-9 of its threshold
+        close = False
+        for j in range(0, len(fl) - 1, 2):
+            cand = np.floor(fl[j + 1] * mc.shape[0]).astype(int)
+            if np.any(np.abs(ref[cand] - fl[j] * mx) <= 1e-9 * mx):
+                close = True
+        if not close:
+            log.fail("follows-density", key + "|accepted-set", "the MC events in the toy are not the ones the recorded acceptance draws select under the model density (expected rows %s, got %s)" % (exp[:12], have[:12]))
+            return
+    log.count("probe.gen_data_checked")
 
 
 def run_bins(spec, log):
@@ -604,6 +737,9 @@ def execute(spec):
         elif kind == "toy":
             run_toy(spec, log)
             nontrivial = spec["calls"] >= 2
+        elif kind == "gen_data":
+            run_gen_data(spec, log)
+            nontrivial = spec["Ndata"] >= 3
         elif kind == "bins":
             run_bins(spec, log)
             nontrivial = spec["layout"] != "int"
